@@ -110,6 +110,13 @@ func merge[EntityT entity.Interface](def Definition, wrapper func(e *Entity) Ent
 			errors.Wrapf(err, "remote %s data is invalid", def.Typename).Error())
 	}
 
+	// The name of the reference has to be the id of what it holds, otherwise we would
+	// store locally an entity under an id that is not its own.
+	if remoteEntity.Id() != id {
+		return entity.NewMergeInvalidStatus(id,
+			fmt.Sprintf("remote %s has the id %s, different from its reference", def.Typename, remoteEntity.Id()))
+	}
+
 	localRef := fmt.Sprintf("refs/%s/%s", def.Namespace, id.String())
 
 	// SCENARIO 1
